@@ -603,6 +603,9 @@ pub struct AddStreamPlan {
     pub second_add: bool,
     /// add_stream + drop rounds performed by the witness / other-stream threads before they drain
     pub side_adds: (u8, u8),
+    /// every stream but the new one(s) leaves early (the documented "add_stream, then unsubscribe
+    /// the parent" usage): nothing the other receivers do can cover up for the new stream
+    pub lonely: Option<(u8, bool)>,
     pub sched: Schedule,
 }
 
@@ -632,9 +635,9 @@ pub fn addstream_plan() -> BoxedStrategy<AddStreamPlan> {
         vec(drain_how(), 5),
         prop_oneof![3 => Just(false), 1 => Just(true)],
         (prop_oneof![2 => Just(0u8), 1 => Just(1u8), 1 => Just(2u8)], prop_oneof![2 => Just(0u8), 1 => Just(1u8), 1 => Just(2u8)]),
-        schedule(500),
+        (prop_oneof![5 => Just(None), 1 => (0u8..3, any::<bool>()).prop_map(Some)], schedule(500)),
     )
-        .prop_map(|(q, prefill, producers, parent_handles, pre_recv, adder_single, sibling_pre, other_stream, hows, second_add, side_adds, sched)| AddStreamPlan {
+        .prop_map(|(q, prefill, producers, parent_handles, pre_recv, adder_single, sibling_pre, other_stream, hows, second_add, side_adds, (lonely, sched))| AddStreamPlan {
             q,
             prefill: prefill.min(q.n() as u8),
             producers,
@@ -646,6 +649,7 @@ pub fn addstream_plan() -> BoxedStrategy<AddStreamPlan> {
             hows,
             second_add,
             side_adds,
+            lonely,
             sched,
         })
         .boxed()
@@ -660,6 +664,16 @@ pub fn build_addstream(pl: &AddStreamPlan, opts: &ExecOpts) -> Scenario {
     for _ in 0..pl.prefill {
         main.push(Op::TrySend { tx: 0 });
     }
+    // how a stream other than the new one(s) finishes
+    let finish = |ops: &mut Vec<Op>, how: DrainHow| match pl.lonely {
+        None => ops.push(Op::Drain { rx: 0, how, extra: 0 }),
+        Some((k, unsub)) => {
+            for _ in 0..k {
+                ops.push(Op::TryRecv { rx: 0 });
+            }
+            ops.push(if unsub { Op::UnsubRx { rx: 0 } } else { Op::DropRx { rx: 0 } });
+        }
+    };
     // table: [W]
     main.push(Op::AddStream { rx: 0 }); // [W, P]
     let mut table: Vec<&str> = vec!["W", "P"];
@@ -698,7 +712,7 @@ pub fn build_addstream(pl: &AddStreamPlan, opts: &ExecOpts) -> Scenario {
             ops.push(Op::AddStream { rx: 0 });
             ops.push(Op::DropRx { rx: 65535 });
         }
-        ops.push(Op::Drain { rx: 0, how: pl.hows[0], extra: 0 });
+        finish(&mut ops, pl.hows[0]);
         progs.push(Prog { ops, ret: false });
     }
     // adder + child
@@ -722,7 +736,7 @@ pub fn build_addstream(pl: &AddStreamPlan, opts: &ExecOpts) -> Scenario {
         } else {
             ops.push(Op::Spawn { prog: child, tx: vec![], rx: vec![sel(1, 2)] });
         }
-        ops.push(Op::Drain { rx: 0, how: pl.hows[1], extra: 0 });
+        finish(&mut ops, pl.hows[1]);
         ops.push(Op::JoinAll);
         progs.push(Prog { ops, ret: false });
         // the child drains the new stream(s) with non-blocking receives alternately, so that
@@ -749,7 +763,7 @@ pub fn build_addstream(pl: &AddStreamPlan, opts: &ExecOpts) -> Scenario {
         for _ in 0..pl.sibling_pre[(k as usize - 1) % 2] {
             ops.push(Op::TryRecv { rx: 0 });
         }
-        ops.push(Op::Drain { rx: 0, how: pl.hows[3], extra: 0 });
+        finish(&mut ops, pl.hows[3]);
         progs.push(Prog { ops, ret: false });
     }
     if pl.other_stream {
@@ -761,7 +775,7 @@ pub fn build_addstream(pl: &AddStreamPlan, opts: &ExecOpts) -> Scenario {
             ops.push(Op::AddStream { rx: 0 });
             ops.push(Op::DropRx { rx: 65535 });
         }
-        ops.push(Op::Drain { rx: 0, how: pl.hows[4], extra: 0 });
+        finish(&mut ops, pl.hows[4]);
         progs.push(Prog { ops, ret: false });
     }
     main.push(Op::JoinAll);
@@ -1117,8 +1131,11 @@ pub fn mem_churn_scenario(opts: ExecOpts, cycle_choices: &'static [u32]) -> Boxe
         0u8..3,            // values left in the queue
         schedule(200),
         prop_oneof![3 => Just(false), 1 => Just(true)], // every receiver gone: only senders churn
+        // a lagging episode before the measured phase: one kept sender handle does not operate
+        // for this many cycles (memory may pile up meanwhile), then operates every cycle
+        prop_oneof![1 => Just(0u8), 1 => 8u8..48],
     )
-        .prop_map(move |(q, ci, rounds, early_drop, second, traffic, leftover, sched, rx_gone)| {
+        .prop_map(move |(q, ci, rounds, early_drop, second, traffic, leftover, sched, rx_gone, lag)| {
             let c = cycle_choices[ci];
             let bcast = q.flavour == Flavour::Broadcast;
             if rx_gone {
@@ -1142,6 +1159,9 @@ pub fn mem_churn_scenario(opts: ExecOpts, cycle_choices: &'static [u32]) -> Boxe
             }
             if second && bcast {
                 main.push(Op::AddStream { rx: 0 });
+            }
+            if lag > 0 {
+                main.push(Op::CloneTx { tx: 0 }); // the controller's senders: [long-lived, lagging]
             }
             let mut progs: Vec<Prog> = vec![Prog { ops: vec![], ret: false }];
             // the concurrent variant is kept short: it doubles the work per cycle
@@ -1170,6 +1190,10 @@ pub fn mem_churn_scenario(opts: ExecOpts, cycle_choices: &'static [u32]) -> Boxe
             }
             if traffic {
                 body.push(Op::Yield);
+            }
+            if lag > 0 {
+                main.push(Op::Repeat { times: lag as u32, body: body.clone(), sample_after: vec![] });
+                body.push(Op::TrySend { tx: sel(1, 2) });
             }
             main.push(Op::Repeat { times: 4 * c, body, sample_after: vec![c, 2 * c, 4 * c] });
             for _ in 0..leftover {
